@@ -167,7 +167,7 @@ def switch_reads_local(body, sw, local):
     defs = reaching_defs(body, opp[0], sw.b, 'term')
     return bool(defs) and all(k == 'assign' and st['rv']['k'] == 'use' and op_place(st['rv']['op']) == [local, []] for (_, _, k, st) in defs)
 
-def flag_regions(body, calls):
+def flag_regions(body, calls, full=False):
     """`let mut f = false; loop { if call() { f = true; break } } if f {A} else {B}`: a bool local that is initialised
     to false before every one of `calls`, becomes true exactly on their true edges (on every path from such an edge to
     the deciding test) and is tested once after all of them.  Returns (local, Switch) or None."""
@@ -198,11 +198,14 @@ def flag_regions(body, calls):
             continue
         if any(body.reaches(t, falses) for t in trues):
             continue
-        dec = [s for s in switches(body) if s.kind == 'bool' and switch_reads_local(body, s, f) and not body.reaches(s.b, [c.bb for c in calls])]
+        readers = [s for s in switches(body) if s.kind == 'bool' and switch_reads_local(body, s, f)]
+        dec = [s for s in readers if not body.reaches(s.b, [c.bb for c in calls])]
         if len(dec) != 1:
             continue
         d = dec[0]
-        if any(s.target(True) not in trues and body.reaches(s.target(True), [d.b], avoid=set(trues)) for s in sws):
-            continue       # a successful call can reach the test with the flag still false
+        if any(s.target(True) not in trues and body.reaches(s.target(True), [r_.b for r_ in readers], avoid=set(trues)) for s in sws):
+            continue       # a successful call can reach a test of the flag with the flag still false
+        if full:
+            return (f, d, readers, trues)
         return (f, d)
     return None
